@@ -1151,7 +1151,10 @@ Definition cl_step (lenient : bool) (t : list tev) (s : cl) (m : list (N * list 
         let okret :=
           match o, r with
           | OpRead, RetErr er =>
-            has_bit er 2 || (lenient && (((cl_reads_after s =? 0) && cl_lastbig s && negb (er =? 0)) || has_bit er 65536))
+            has_bit er 2 || (lenient && (((cl_reads_after s =? 0) && cl_lastbig s && negb (er =? 0)) || has_bit er 65536
+                                         (* F23, third form: the end of stream of a connection whose other end
+                                            was closed before Close, once *)
+                                         || ((cl_reads_after s =? 0) && has_bit er 32768)))
           | OpRead, _ => false
           | (OpPublish _ _ _ | OpSub _ _ | OpUnsub _ | OpPing), RetErr er => has_bit er 2 || has_bit er 256
           | OpPubP _ _ _ _, RetErr er => has_bit er 2 || has_bit er 256
